@@ -1,4 +1,9 @@
-"""C07 — sample order and repetition do not change what is inferred (CH-P/CH-E over genome x permutation x duplication)."""
+"""C07 — sample order and repetition do not change what is inferred.
+
+CH-P: for every genome of n samples the real `generate()` runs under CrossHair on *symbolic* int/float/bool leaves, once
+in the original order and once per permutation / duplication variant, all on the same leaves: a comparison between
+leaf values anywhere in the real code (say, a de-duplication by ==) forks the path and the IRs are compared on each
+branch.  CH-E: the registry level (process_meta_data + merge_models) is compared natively per variant."""
 import copy
 import itertools
 
@@ -7,64 +12,100 @@ from vflib.parts import CH
 from vflib.props import c01
 
 
+def variants(n):
+    perms = list(itertools.permutations(range(n)))
+    out = [("perm", list(p)) for p in perms[1:]]
+    for i in range(n):
+        out.append(("dup", list(range(n)) + [i]))
+        out.append(("dup2", list(range(n)) + [i, i]))
+        out.append(("dup_front", [i] + list(range(n))))
+    for p in perms[1:3]:
+        for i in range(n):
+            q = list(p)
+            q.insert(1 + i % n, i)
+            out.append(("dup_perm", q))
+    return out
+
+
 def scen_order(ch, params, out):
+    from json_to_models.generator import MetadataGenerator
     from vflib import oracles, pipeline
-    kinds = getattr(jsonsym, params.get("kinds", "KINDS_SMALL"))
+    kinds = getattr(jsonsym, params.get("kinds", "KINDS_ORDER"))
     n = params.get("samples", 3)
     keys = params.get("keys", ["a"])
-    first = ch.choose("kinds(s0,s1)", [(a, b) for a in kinds for b in kinds], shard=True)
+    slots = [(i, key) for i in range(n) for key in keys]
     cfgk = [dict() for _ in range(n)]
-    cfgk[0][keys[0]], cfgk[1][keys[0]] = first
-    for i in range(n):
-        for key in keys:
-            if key not in cfgk[i]:
-                cfgk[i][key] = ch.choose(f"kind(s{i}.{key})", kinds)
+    first = ch.choose(f"kinds({slots[0]},{slots[1]})", [(a, b) for a in kinds for b in kinds], shard=True)
+    for (i, key), kind in zip(slots[:2], first):
+        cfgk[i][key] = kind
+    for i, key in slots[2:]:
+        cfgk[i][key] = ch.choose(f"kind(s{i}.{key})", kinds)
     merge = ch.choose("merge", params.get("merge", ["default"]))
     samples = [jsonsym.sample(None, f"s{i}", cfgk[i], False) for i in range(n)]
-    perms = list(itertools.permutations(range(n)))
-    variants = [("perm", p) for p in perms[1:]] + [("dup", (i, c)) for i in range(n) for c in (1, 2)] + \
-               [("dup_perm", (i, p)) for i in range(n) for p in perms[1:3]]
-    kind, arg = ch.choose("variant", variants)
-    if kind == "perm":
-        other = [samples[i] for i in arg]
-    elif kind == "dup":
-        i, c = arg
-        other = samples + [samples[i]] * c
-    else:
-        i, p = arg
-        other = [samples[j] for j in p]
-        other.insert(ch.pick("dup_position", n + 1), samples[i])
-    out.info = {"samples": samples, "variant": [kind, list(map(str, arg))]}
+    sym = params.get("symbolic_leaves", True)
+    samples_sym = [jsonsym.sample(ch, f"s{i}", cfgk[i], True) for i in range(n)] if sym else None
+    out.info = {"samples": samples}
+    vs = variants(n)
 
     def run(ss):
         return pipeline.infer({"Root": copy.deepcopy(ss)}, merge=c01.merge_policy(merge))[1]
     try:
-        r1 = run(samples)
-    except Exception as e:
-        return  # crashes of inference are C01/C08's subject
-    try:
-        r2 = run(other)
-    except Exception as e:
-        out.fail("variant_raises", f"{type(e).__name__}: {e} for {other} (original order fine: {samples})", "variant_raises")
-        return
-    c1, c2 = oracles.canon_registry(r1), oracles.canon_registry(r2)
-    out.check(c1 == c2, "order_or_repetition_dependent",
-              lambda: f"samples {samples} -> {c1}\n but {kind}{arg} {other} -> {c2}", f"order_dependent:{kind}")
+        c1 = oracles.canon_registry(run(samples))
+    except Exception:
+        return  # crashes of inference in the given order are C01/C08's subject
+    for kind, order in vs:
+        other = [samples[i] for i in order]
+        try:
+            c2 = oracles.canon_registry(run(other))
+        except Exception as e:
+            out.fail("variant_raises", f"{type(e).__name__}: {e} for {other} (original order fine: {samples})", "variant_raises")
+            continue
+        out.check(c1 == c2, "order_or_repetition_dependent",
+                  lambda: f"samples {samples} -> {c1}\n but {kind} {order} -> {c2}", f"order_dependent:{kind}")
+    if sym and not out.failures:
+        try:
+            with ch.traced():
+                ir1 = MetadataGenerator().generate(*samples_sym)
+        except Exception:
+            return
+        k1 = repr(oracles.canon_ir(ir1))
+        for kind, order in vs:
+            if kind in ("dup2", "dup_perm") and not params.get("all_traced"):
+                continue
+            try:
+                with ch.traced():
+                    ir2 = MetadataGenerator().generate(*[samples_sym[i] for i in order])
+            except Exception as e:
+                out.fail("variant_raises", f"{type(e).__name__}: {e} for order {order} of {samples}", "variant_raises")
+                continue
+            k2 = repr(oracles.canon_ir(ir2))
+            out.check(k1 == k2, "order_or_repetition_dependent",
+                      lambda: f"shape {samples} with leaf values {ch.finalize()}: {k1} but {kind} {order}: {k2}",
+                      f"order_dependent_ir:{kind}")
+            if out.failures:
+                break
 
 
 def parts(tier):
     if tier == "quick":
-        return [CH("order", "vflib.props.c07:scen_order", {"kinds": "KINDS_SMALL", "samples": 3},
-                   shards=16, timeout=170, path_timeout=30)]
-    return []
+        return [CH("order", "vflib.props.c07:scen_order", {"kinds": "KINDS_ORDER", "samples": 3},
+                   shards=16, timeout=170, path_timeout=60, mode="CH-P+CH-E")]
+    return [CH("order", "vflib.props.c07:scen_order", {"kinds": "KINDS_SMALL", "samples": 3, "merge": ["default", "p50n2"], "all_traced": True},
+               shards=16, timeout=1500, path_timeout=90, mode="CH-P+CH-E"),
+            CH("order_nested", "vflib.props.c07:scen_order", {"kinds": "KINDS_NEST", "samples": 3, "merge": ["default", "p50n2"],
+                                                              "symbolic_leaves": False},
+               shards=16, timeout=1500, path_timeout=60, mode="CH-E"),
+            CH("order_two_keys", "vflib.props.c07:scen_order", {"kinds": "KINDS_ORDER", "samples": 2, "keys": ["a", "b"], "merge": ["default", "p50n2"]},
+               shards=16, timeout=1500, path_timeout=60, mode="CH-P+CH-E")]
 
 
 META = {
-    "level": "exploration", "mode": "CH-E",
-    "explanation": "for every genome of 3 samples and every permutation / duplication selector the canonicalised registry is compared with the one of the original order",
-    "functions_encoded": ["MetadataGenerator.generate/merge_field_sets/_optimize_union", "DUnion.__init__/__eq__", "ModelRegistry.merge_models"],
-    "symbolic_on_path": ["kind of the varying field per sample", "permutation selector", "duplication selector and position", "merge policy"],
-    "bounds": {"quick": "3 samples, 10 kinds on one varying key, 5 permutations + 6 duplications + 6 duplicate-and-permute variants"},
-    "outside_claim": ["more than 3 samples", "more than one varying key (quick)"],
+    "level": "exploration", "mode": "CH-P (all orders inferred on shared symbolic leaves) + CH-E (registry level)",
+    "explanation": "for every genome of 3 samples every permutation / duplication variant is compared with the original order: at IR level on symbolic leaves under CrossHair, at registry level natively",
+    "functions_encoded": ["MetadataGenerator.generate/_convert/_detect_type/merge_field_sets/_optimize_union", "DUnion.__init__/__eq__", "ModelRegistry.merge_models"],
+    "symbolic_on_path": ["int/float/bool leaves (shared by all orders)", "kind of the varying field per sample", "merge policy"],
+    "bounds": {"quick": "3 samples, 8 kinds on one varying key; 5 permutations + 9 duplications (+6 duplicate-and-permute natively)",
+               "thorough": "3 samples x 10 kinds x 2 merge policies (all 26 variants traced); 3 samples x 14 nested kinds natively; 2 samples x 2 varying keys"},
+    "outside_claim": ["more than 3 samples", "strings other than the atoms of the pool"],
     "assumptions": ["models are compared as sets of (field, optional?, type-as-set); references are compared by the key set of the target"],
 }
